@@ -162,20 +162,27 @@ class C06(Prop):
         "the loop output step has taken a termination token it has not terminated, and once it has, every instance p ran "
         "exactly k_p iterations (k_p = first index where the condition is false; 0 and >= 10 included) and the step has "
         "emitted exactly one token per instance with the iteration values in order (all) / the last or null (last), then "
-        "terminated (second invariant: per-instance phase + exact multiset of tokens sent towards the loop output step). C06_all_dict_keys / C06_no_early_exit_refuted record that the step alone does NOT have this "
+        "terminated (second invariant: per-instance phase + exact multiset of tokens sent towards the loop output step). "
+        "(2'') The same two theorems for a loop with k >= 1 input variables and m outputs (C06_no_early_exit_k, "
+        "C06_loop_network_k: one output per instance PER OUTPUT VARIABLE, values in iteration order / last, then termination), "
+        "by projecting the k x m network on each (input, output) pair (C06_projection_k). C06_all_dict_keys / C06_no_early_exit_refuted record that the step alone does NOT have this "
         "property (all(self.termination_map) tests the dict's keys): it is the wiring that provides it. (3) The "
         "combinator numbers the iterations of each instance 0,1,2,... (C06_iteration_tags). Models are tied to /repo by "
         "driving the real CWLLoopOutput*Step, LoopCombinatorStep, LoopCombinator and CWLLoopConditionalStep token by "
         "token and comparing with vm_compute, plus whole CWL loop workflows judged by an oracle from the property text.")
     LEVEL_NOTE = (
-        "partial in scope, not in strength: the wiring theorem is for one loop variable, COMPLETED termination tokens, a "
-        "body and forwarders emitting one token per token with the same tag, instances of equal tag depth. k > 1 loop "
-        "variables (the combinator's dot-product join over k ports and per-port checklists, the terminator's join over the "
-        "outputs) are NOT modelled at network level; the k-port LoopCombinatorStep alone is (Loop/CombK.v, C06_combinator_k_*: "
-        "it returns only when every port terminated with an empty checklist), and k = 2 whole-loop runs exercise the rest. The "
-        "forwarders, the body and LoopTerminationCombinator are modelled from reading the code and exercised only by "
-        "whole-loop runs. Trusted: Coq kernel + vm_compute; hand-written Loop/Model.v and Loop/Net.v; sorted() modelled as "
-        "stable insertion sort; JS evaluation, body execution and asyncio are exercised, not modelled.")
+        "k input variables and m outputs (C06_loop_network_k, C06_no_early_exit_k, any k >= 1): Loop/NetK.v is the k x m "
+        "network (k-port LoopCombinatorStep with per-port checklists and the dot-product join, lock-step loop-when, k "
+        "back-propagation and m output forwarders, m loop output steps, the terminator's join over the m outputs); every "
+        "(input, output) projection is proved to move by the moves of Loop/NetG.v, for which both invariants are re-proved. "
+        "Remaining scope limits: COMPLETED termination tokens only (any other status clears the checklists: failure path), "
+        "a body and forwarders emitting one token per token with the same tag, a deterministic body, instances of equal tag "
+        "depth, loop variables that all enter the combinator (valueFrom/default transformers on loop inputs not modelled). "
+        "Tied to the code by correspondence: loop output steps, LoopCombinatorStep with 1, 2 and 3 ports, LoopCombinator "
+        "counters, the loop-when step with one and two input ports (lock step); the forwarders, the body "
+        "and LoopTerminationCombinator are modelled from reading the code and exercised only by whole-loop runs (one and "
+        "two loop variables). Trusted: Coq kernel + vm_compute; hand-written Loop/Model.v, Net.v, NetG.v, NetK.v, CombK.v; "
+        "sorted() modelled as stable insertion sort; JS evaluation, body execution and asyncio are exercised, not modelled.")
     TECHNIQUE = ("Coq proof (projection on one loop instance, closed form on incomplete prefixes, uniqueness of sorted "
                  "permutations) + vm_compute correspondence against the real steps + whole-loop CWL runs judged by the oracle")
     RULE = ("step: 1..4 instances (prefixes of depth 1..3), counts 0..15 (bias 0,1,9..12), all/last, iteration tokens and "
@@ -184,15 +191,16 @@ class C06(Prop):
             "statuses (model fidelity only); retag: real LoopCombinator fed interleaved instances and iterations; cstep: real LoopCombinatorStep fed "
             "interleaved instance / looped-back / iteration-termination tokens with the termination token early or late, "
             "well-formed or with junk; when: real CWLLoopConditionalStep with a JS condition, output vs skip port; ckstep: real LoopCombinatorStep with 2 or 3 "
-            "input ports (k loop variables) fed interleaved per-port sequences; wf: CWL "
+            "input ports (k loop variables) fed interleaved per-port sequences; when2: real CWLLoopConditionalStep with two "
+            "input ports fed the same tag sequence in arbitrary interleavings (one token from each port per turn); wf: CWL "
             "workflows (loop inside scatter or plain loop, ExpressionTool body, one or two back-propagated loop variables) run by the real engine. Non-trivial = a "
             "count >= 10 or 0, or >= 2 instances, or a non-identity order; every wf case. Distinct = distinct canonical JSON.")
     TRUSTED = ("models: Loop/Model.v (LoopOutputStep.run, CWLLoopOutputAllStep/LastStep._process_output, "
                "LoopCombinator._product counters) and Loop/Net.v (LoopCombinatorStep.run, CWLLoopConditionalStep, "
                "LoopTerminationCombinator, ForwardTransformers, terminate()) are hand-written; the last three and the "
                "port topology are tied to the code only by reading cwl/translator.py and by whole-loop runs",)
-    ASSUMPTIONS = ("one loop variable; termination tokens carry COMPLETED; the body emits one token per input token with the "
-                   "same tag; all instances of a loop have the same tag depth",
+    ASSUMPTIONS = ("termination tokens carry COMPLETED; the body emits one token per input tuple and output, with the same tag; "
+                   "all instances of a loop have the same tag depth; every loop variable enters the combinator directly",
                    "tags are well-formed dotted decimals; the body is deterministic")
 
     # ---------------------------------------------------------------- generation
@@ -237,6 +245,12 @@ class C06(Prop):
             k = rng.randrange(0, 6)
             cases.append({"f": "when", "lim": rng.choice([0, 2, 5]),
                           "toks": [[self._prefix(rng, 2) + "." + str(i), rng.randrange(0, 8)] for i in range(k)]})
+        for _ in range({"quick": 6, "thorough": 30, "extended": 8}[tier]):
+            n = rng.randrange(0, 5)
+            toks = [[self._prefix(rng, 2) + "." + str(i), rng.randrange(0, 8)] for i in range(n)]
+            order = [p for p in (0, 1) for _ in range(n + 1)]      # n tokens and one termination token per port
+            rng.shuffle(order)
+            cases.append({"f": "when2", "lim": rng.choice([0, 2, 5]), "toks": toks, "order": order})
         for _ in range(nwf):
             scat = rng.random() < 0.75
             lim = rng.choice([3, 10, 11, 13, 15])
@@ -580,6 +594,63 @@ class C06(Prop):
         finally:
             await ctx.close()
 
+    async def _when2_step(self, c):
+        """two loop variables x, y: the same tag sequence on both input ports, interleaved as c['order'] says"""
+        import asyncio
+
+        e, sd = self.e, self.sd
+        ctx = e.build_context()
+        try:
+            wf = e.Workflow(ctx, config={}, name="w")
+            ins = {n: wf.create_port(e.ObsPort) for n in ("x", "y")}
+            outs = {n: wf.create_port() for n in ("x", "y")}
+            oute = wf.create_port()
+            st = wf.create_step(self.When, name="/s-loop-when", expression=f"$(inputs.x < {c['lim']})", full_js=True)
+            for n in ins:
+                st.add_input_port(n, ins[n])
+                st.add_output_port(n, outs[n])
+            st.add_skip_port("o", oute)
+            await wf.save(ctx.database)
+            seqs = {}
+            for n in ins:
+                seqs[n] = [e.Token(v, tag=t) for t, v in c["toks"]] + [e.TerminationToken()]
+                for tok in seqs[n][:-1]:
+                    await tok.save(ctx.database)
+            task = asyncio.ensure_future(st.run())
+            ports = list(ins.values())
+
+            def quiet():
+                # the step is blocked waiting on a port that has nothing to deliver (a token already put on ANOTHER port
+                # stays in its queue until the step asks that port again: one token from each port per turn)
+                return task.done() or (sd._blocked(task)
+                                       and any(p.waiting == 1 and p.delivered == p.nput for p in ports))
+            await sd.until(quiet)
+            err = None
+            try:
+                for which in c["order"]:
+                    if task.done():
+                        break
+                    n = "xy"[which]
+                    if not seqs[n]:
+                        continue
+                    ins[n].feed(seqs[n].pop(0))
+                    await sd.until(quiet)
+                    await asyncio.sleep(0)
+                    await asyncio.sleep(0)
+                    await sd.until(quiet)
+                if not task.done():
+                    await asyncio.wait_for(task, 60)
+                task.result()
+            except Exception as ex:
+                err = type(ex).__name__
+            o = {"Dx": self._canon(outs["x"]), "Dy": self._canon(outs["y"]), "E": self._canon(oute),
+                 "fin": task.done(), "status": st.status.name}
+            if err:
+                o["err"] = err
+            return o
+        finally:
+            await ctx.close()
+
     async def _retag_run(self, tags):
         e = self.e
         comb = self.LoopCombinator("c", None)
@@ -673,6 +744,8 @@ class C06(Prop):
             return asyncio.run(self._when_step(c))
         if c["f"] == "ckstep":
             return asyncio.run(self._comb_k(c))
+        if c["f"] == "when2":
+            return asyncio.run(self._when2_step(c))
         arr = step_arrivals(c) if c["f"] == "step" else c["arr"]
         o = asyncio.run(self._loop_step(c["pol"], arr))
         o["arr"] = arr
@@ -737,6 +810,16 @@ class C06(Prop):
                     if not any(a[1] == "T" for a in mine):
                         return ("combinator-early-exit", f"k-port combinator step returned although port {i} had not "
                                                          f"delivered its termination token: {fed}")
+        if c["f"] == "when2":
+            if o.get("err") or not o.get("fin"):
+                return ("step-raises", f"two-variable loop-when step failed: {o}")
+            wantD = [["E", t] for t, v in c["toks"] if v < c["lim"]]
+            wantE = [["I", t] for t, v in c["toks"] if not v < c["lim"]]
+            for k in ("Dx", "Dy"):
+                if [x for x in o[k] if x[0] != "T"] != wantD:
+                    return ("when-routing", f"two-variable loop-when put {o[k]} on output {k}, expected {wantD}")
+            if [x for x in o["E"] if x[0] != "T"] != wantE:
+                return ("when-routing", f"two-variable loop-when put {o['E']} on the skip port, expected {wantE}")
         if c["f"] == "when":
             if o.get("err") or not o.get("fin"):
                 return ("step-raises", f"loop-when step failed: {o}")
@@ -786,6 +869,12 @@ class C06(Prop):
                 return f"({a[0]}%nat, {tokc})"
             outs = coq_list([coq_list([coq_atok(x) for x in port]) for port in o["outs"]])
             return f"CCombK {c['k']}%nat {coq_list([pa(a) for a in arr])} {outs} {'true' if o['fin'] else 'false'}"
+        if c["f"] == "when2":
+            if o.get("err") or len({t for t, _ in c["toks"]}) != len(c["toks"]):
+                return None
+            arr = coq_list([f"({coq_tag(t)}, {'true' if v < c['lim'] else 'false'})" for t, v in c["toks"]])
+            ds = coq_list([coq_list([coq_atok(a) for a in o[k]]) for k in ("Dx", "Dy")])
+            return f"CWhenK {arr} {ds} {coq_list([coq_atok(a) for a in o['E']])}"
         if c["f"] == "when":
             if o.get("err") or len({t for t, _ in c["toks"]}) != len(c["toks"]):
                 return None
